@@ -22,7 +22,7 @@ RULE = ('seeded worlds (2-8 segments, 1-4 channels, some with identical shapes s
         'of that handle (the read that meets it may fail, every later read must still be right); in 30% of worlds a second file - a sibling with the same objects, sizes and lengths but another distribution over the segments, or an unrelated file with the same paths - is open at the same time and read in between. distinct = distinct abstract traces [(action, generator '
         'kind, op kind)...] x world shape; non-trivial = at least one generator was advanced with another '
         'action interleaved between two of its yields')
-EXPECTED_PROBES = ['second-file-op', 'eio:op-raised', 'eio:generator-hit', 'scaled-channel', 'read-between-file-chunks', 'two-generators-same-channel', 'abandoned-then-new',
+EXPECTED_PROBES = ['truncated-file', 'second-file-op', 'eio:op-raised', 'eio:generator-hit', 'scaled-channel', 'read-between-file-chunks', 'two-generators-same-channel', 'abandoned-then-new',
                    'index-cache-hit-after-other-read', 'generator-drained-at-end']
 MAX_LIVE = 8
 
@@ -118,6 +118,11 @@ def generate(rng, tier):
         spec, w, _ = gen.gen_world(rng, o)
     else:
         w = build(spec)
+    cut = None
+    last = w.segs[-1]
+    if (not any(sg.get('layout') == 'daqmx' for sg in spec['segments']) and last.end - last.data_pos > 1
+            and not spec['segments'][-1].get('short_last') and rng.random() < 0.1):
+        cut = rng.randint(last.data_pos + 1, last.end - 1)     # the file a crashed producer left behind
     by = None
     w2 = None
     if rng.random() < 0.3 and not any(sg.get('layout') == 'daqmx' for sg in spec['segments']):
@@ -139,7 +144,7 @@ def generate(rng, tier):
             by = strip_scaling(by)
             w2 = build(by)
     return {'spec': spec, 'raw_ts': rng.random() < 0.4, 'backend': rng.choice(['simstream', 'simstream', 'simpath', 'bytesio', 'realpath', 'realfile', 'rawfile']),
-            'dedup_chunk': rng.choice([1, 2, 3, 100]), 'actions': gen_actions(rng, w, w2=w2), 'bystander': by,
+            'dedup_chunk': rng.choice([1, 2, 3, 100]), 'actions': gen_actions(rng, w, w2=w2), 'bystander': by, 'cut': cut,
             'bystander_first': rng.random() < 0.5,
             'short_seed': rng.getrandbits(32) if rng.random() < 0.2 else None, 'debug_log': rng.random() < 0.05,
             # a transient I/O error on the open handle: the read that meets it may fail, later reads must not be affected
@@ -204,7 +209,11 @@ def execute(case):
     from .c04 import _sig
     res.sig = [_sig(spec), trace]
     with store(short_seed=case['short_seed'], record=False) as st, lib.knobs(dedup_chunk=case['dedup_chunk'], debug_log=case.get('debug_log', False)):
-        st.put('w.tdms', w.data)
+        cut = case.get('cut')
+        st.put('w.tdms', w.data if cut is None else w.data[:cut])
+        if cut is not None:
+            res.probe('truncated-file')
+            res.fault('crash')
         eio = case.get('eio_at')
         tf2 = w2 = None
         fulls2 = {}
@@ -234,10 +243,13 @@ def execute(case):
         res.backend = case['backend'] if eio is None else 'simstream'
         fulls = {p: _lazy.model_full(c, raw_ts) for p, c in w.chans.items()}
         from .. import scalemodel
-        scaled = [p for p in w.chans if w.chans[p].type not in (None, 'daqmx') and scalemodel.channel_scales(w, p) is not None]
+        scaled = [p for p in w.chans if w.chans[p].type not in (None, 'daqmx') and (
+            cut is not None or scalemodel.channel_scales(w, p) is not None)]
         if scaled:
-            # scaled channels: the oracle is what the same read yields on a freshly opened file
-            res.probe('scaled-channel')
+            # scaled channels, and every channel of a file cut short by a crash: the oracle is what the same read
+            # yields on a freshly opened file
+            if cut is None:
+                res.probe('scaled-channel')
             fresh = lib.TdmsFile.open(st.source('simstream', 'w.tdms'), raw_timestamps=raw_ts)
             try:
                 for p in scaled:
@@ -438,6 +450,10 @@ def shrink_candidates(case):
     if case.get('eio_at') is not None:
         c = dict(case)
         c['eio_at'] = None
+        yield c
+    if case.get('cut') is not None:
+        c = dict(case)
+        c['cut'] = None
         yield c
     if case.get('bystander') is not None:
         c = dict(case)
